@@ -20,6 +20,10 @@ fn main() {
         eprintln!("usage: wbverif <command> ...");
         std::process::exit(2);
     }
+    // WBVERIF_LOG=<filter>: the log output of the code under test on stderr (debugging aid)
+    if let Ok(f) = std::env::var("WBVERIF_LOG") {
+        let _ = tracing_subscriber::fmt().with_env_filter(tracing_subscriber::EnvFilter::new(f)).with_writer(std::io::stderr).try_init();
+    }
     // a panic in the code under test is an observation, not noise on stderr
     if std::env::var("WBVERIF_PANIC_MSG").is_err() {
         std::panic::set_hook(Box::new(|_| {}));
